@@ -9,7 +9,7 @@ WT = '/tmp/vseedwt'
 def sh(cmd, cwd=None, timeout=1200, env=None):
     # own session, so that a timeout can take the whole process tree down (a hung test must not keep spinning for hours)
     import signal
-    p = subprocess.Popen(cmd, shell=True, cwd=cwd, stdout=subprocess.PIPE, stderr=subprocess.STDOUT, text=True, env=env, start_new_session=True)
+    p = subprocess.Popen(cmd, shell=True, cwd=cwd, stdout=subprocess.PIPE, stderr=subprocess.STDOUT, text=True, errors="replace", env=env, start_new_session=True)
     try:
         out, _ = p.communicate(timeout=timeout)
         return p.returncode, (out or '')[-3000:]
